@@ -30,7 +30,7 @@ TOKEN_RE = re.compile(r"""
   | (?P<str>"(?:\\.|[^"\\])*")
   | (?P<lifetime>'[A-Za-z_][A-Za-z0-9_]*(?!'))
   | (?P<charlit>'(?:\\.|[^\\'])')
-  | (?P<num>0x[0-9a-fA-F_]+(?:_?[iu](?:8|16|32|64|size))?|[0-9][0-9_]*(?:_?[iu](?:8|16|32|64|size))?)
+  | (?P<num>0x[0-9a-fA-F_]+(?:_?[iu](?:8|16|32|64|size))?|0b[01_]+(?:_?[iu](?:8|16|32|64|size))?|[0-9][0-9_]*(?:_?[iu](?:8|16|32|64|size))?)
   | (?P<ident>[A-Za-z_][A-Za-z0-9_]*!?)
   | (?P<op>\.\.=|::|->|=>|==|!=|<=|>=|&&|\|\||<<|>>|\+=|-=|\*=|\|=|&=|[-+*/%&|^!<>=.,;:#\[\](){}?@$])
 """, re.X | re.S)
@@ -95,7 +95,7 @@ def byte_value(tok):
         raise TranslationError("byte literal " + v)
     if k == "num":
         s = re.sub(r"_?[iu](8|16|32|64|size)$", "", v).replace("_", "")
-        return int(s, 16) if s.startswith("0x") else int(s)
+        return int(s, 16) if s.startswith("0x") else int(s[2:], 2) if s.startswith("0b") else int(s)
     raise TranslationError("expected a byte value, got %r" % (tok,))
 
 
@@ -484,6 +484,8 @@ def g2_swar(toks):
                 lines.append("  let %s := %s in" % (name, swar_expr(parse_expr(st[5:]), None)))
             elif st[0] == ("ident", "let"):
                 name = st[1][1]
+                if st[2] == ("op", ":") and st[3][0] == "ident" and st[4] == ("op", "="):
+                    st = st[:2] + st[4:]            # a redundant type annotation on a kernel local
                 if st[2] != ("op", "="):
                     raise TranslationError(fn + ": let shape: " + norm(st))
                 lines.append("  let %s := %s in" % (name, swar_expr(parse_expr(st[3:]), None)))
@@ -524,8 +526,12 @@ def x86_kernel(toks, fn, prefix, bits):
             if not name.startswith(prefix):
                 raise TranslationError("%s: intrinsic %s is not a %d-bit intrinsic" % (fn, name, bits))
             stem = name[len(prefix):]
-            if stem == "set1_epi8" and len(args) == 1 and args[0][0] == "num":
-                return "(set1 %d)" % args[0][1]
+            if stem == "set1_epi8" and len(args) == 1:
+                a0 = args[0]
+                while a0[0] == "cast" and a0[2] in ("i8", "u8"):     # `b'\t' as i8`: the same byte
+                    a0 = a0[1]
+                if a0[0] == "num":
+                    return "(set1 %d)" % (a0[1] & 255)
             if stem in X86_LANE and len(args) == X86_LANE[stem][1]:
                 return "(%s %s)" % (X86_LANE[stem][0], " ".join(lane(a) for a in args))
             m = re.fullmatch(r"(or|andnot|and)_si%d" % bits, stem)
@@ -1190,6 +1196,23 @@ def main():
     def toks(rel):
         with open(os.path.join(repo, rel)) as f:
             t = lex(f.read())
+        if rel.startswith("src/simd/") and rel != "src/simd/mod.rs":
+            # a private `const NAME: usize = <literal>;` (e.g. a name for the chunk width) is read as its literal
+            lits = {}
+            for i in range(len(t) - 6):
+                if t[i] == ("ident", "const") and t[i + 1][0] == "ident" and t[i + 2] == ("op", ":") \
+                        and t[i + 3] == ("ident", "usize") and t[i + 4] == ("op", "=") and t[i + 5][0] == "num" \
+                        and t[i + 6] == ("op", ";"):
+                    lits[t[i + 1][1]] = t[i + 5]
+            if lits:
+                out, i = [], 0
+                while i < len(t):
+                    if t[i] == ("ident", "const") and i + 1 < len(t) and t[i + 1][1] in lits:
+                        i += 7                      # drop the declaration itself
+                        continue
+                    out.append(lits[t[i][1]] if t[i][0] == "ident" and t[i][1] in lits else t[i])
+                    i += 1
+                t = out
         for shell, canon in CANON.get(rel, {}).items():
             try:
                 _, body = fn_body(t, shell)
